@@ -33,21 +33,33 @@ def property_check(ctx, case, r):
     tt = r["tt"]
     T = tt[-1]
     rel = [t / T for t in tt]
+    # strong = the input satisfies the premise of C14_recorded_exactly_at_requested_times (no two distinct
+    # candidate times 0.5e-12..4e-9 apart): exactly once per requested time and nothing else.
+    # weak = clusters inside that window: the theorems only give "every requested time is recorded within
+    # 1e-12" and "every recorded time is within 1e-10 of a requested one".
+    mode = tg.premise_mode(case, T)
+    near_tol = tg.TOLU * 1.01 + 1e-15
     for j, rec in enumerate(r["recs"]):
         times = [t for t, _ in rec]
         req = tg.requested(case, j)
         if req is None:  # default "Full": every grid time
             req = rel
-        info = dict(base, observable=j, requested=req, recorded=times)
+        info = dict(base, observable=j, requested=req, recorded=times, mode=mode)
         if any(not (a < b) for a, b in zip(times, times[1:])):
             return ctx.violation(f"observable {j}: recorded times are not increasing",
                                  dict(info, finding_key="recorded-order"))
-        for q in req:
-            n = sum(1 for t in times if abs(t - q) <= MATCH_TOL)
-            if n != 1:
-                return ctx.violation(f"observable {j}: requested time {q} recorded {n} times",
-                                     dict(info, finding_key="requested-not-once"))
-        extra = [t for t in times if not any(abs(t - q) <= MATCH_TOL for q in req)]
+        for q in req:  # both modes: a value within the merge tolerance of every requested time
+            if not any(abs(t - q) <= near_tol for t in times):
+                return ctx.violation(f"observable {j}: no value recorded within 1e-12 of the requested time {q!r}",
+                                     dict(info, finding_key="requested-not-recorded"))
+        if mode == "strong":
+            for q in req:
+                n = sum(1 for t in times if abs(t - q) <= MATCH_TOL)
+                if n != 1:
+                    return ctx.violation(f"observable {j}: requested time {q} recorded {n} times",
+                                         dict(info, finding_key="requested-not-once"))
+        out_tol = MATCH_TOL if mode == "strong" else tg.TOLB * 1.01
+        extra = [t for t in times if not any(abs(t - q) <= out_tol for q in req)]
         if extra:
             dfl = [] if case["dflt"] == "Full" else case["dflt"]
             from_default = case["dflt"] == "Full" or all(any(abs(t - d) <= MATCH_TOL for d in dfl) for t in extra)
@@ -121,6 +133,12 @@ def run(ctx):
             c["dur"] = (c["dur"] // 4) * 4
             c["with_modulation"] = True
         cases.append(c)
+    for i in range(ctx.n(180, 3000)):  # clusters: requested times 1e-15..1e-7 (relative) off another candidate
+        b = backends[i % len(backends)]
+        c = tg.gen_cluster_case(ctx.rng, max_points={"sv": 250, "mps": 100, "mps-dmrg": 25}[b], max_dur=4000,
+                                backend=b, min_dur=2)
+        c["kind"] = "cluster"
+        cases.append(c)
     for i in range(nm):
         cases.append(gen_malformed(ctx.rng, backends[i % 3]))
 
@@ -171,7 +189,8 @@ def run(ctx):
     ctx.rule = ("real pulser sequences (2 atoms, constant pulse, optionally modulated) of 2..4000 ns, dt from 0.1 to "
                 "above the duration, 0-3 probe observables with own times or the config default (decimal fractions "
                 "k*dt/T, rationals, 0, 1, random; default 'Full'; default times planted within 0.2..3 ns of own "
-                "times), run on emu-sv (stepper stubbed), emu-mps TDVP and DMRG (real 2-atom kernels); malformed "
+                "times; clusters: a requested time at relative distance log-uniform in [1e-15, 1e-7] from a multiple "
+                "of dt / a time of the same or another observable / of the default, anchored anywhere in [0,1]), run on emu-sv (stepper stubbed), emu-mps TDVP and DMRG (real 2-atom kernels); malformed "
                 "stream: times of different observables 3e-13..1e-9 apart; non-trivial = at least 2 values recorded")
     ctx.trusted_base += ["hand model coq/Model/TimeGrid.v of the backends' recording logic and of pulser-core 1.9.1's "
                          "Observable.__call__/_validate_eval_times/Results._store_raw (validated by this "
@@ -180,6 +199,10 @@ def run(ctx):
     ctx.assumptions += [
         "theorems are in exact real arithmetic with an explicit separation premise on the grid",
         "a recorded time counts as the requested one within 1e-9 (relative): (t*T)/T need not round-trip",
+        "oracle modes follow the premise of C14_recorded_exactly_at_requested_times: inputs with two distinct "
+        "candidate times 0.5e-12..4e-9 apart (relative) are only required to record every requested time within "
+        "1e-12 and nothing farther than 1e-10 from a requested time (an observable may be recorded at both of two "
+        "grid points 1e-12..1e-10 apart); all other inputs: exactly once per requested time and nothing else",
         "the value's state is identified by the number of solver steps completed (probe observable); what each "
         "observable computes from that state is C13",
         "noisy emu-mps runs record in timestep_complete exactly like the noiseless ones (same code path); jump "
